@@ -9,6 +9,7 @@ import (
 	"math"
 	"math/big"
 	"math/rand"
+	"sort"
 	"strings"
 
 	"github.com/aclements/go-moremath/fit"
@@ -309,6 +310,31 @@ func fitReplay(in io.Reader, raw bool, args []string) (*Summary, error) {
 			}
 			if !okx() || !oky() {
 				sum.viol("argument-modified", c, "LOESS changed its inputs (or the spare capacity behind them)")
+			}
+			// "depends only on the ceil(span*n) data points nearest the query": whatever the other points hold - huge values,
+			// infinities, NaN - the value at x0 stays what it was (skipped when the window's edge is a tie in distance)
+			if pass == 0 {
+				n := len(xs)
+				q := int(math.Ceil(span * float64(n)))
+				if q >= 1 && q < n {
+					ord := make([]int, n)
+					for i := range ord {
+						ord[i] = i
+					}
+					sort.Slice(ord, func(a, b int) bool { return math.Abs(xs[ord[a]]-x0) < math.Abs(xs[ord[b]]-x0) })
+					if math.Abs(xs[ord[q-1]]-x0) < math.Abs(xs[ord[q]]-x0) {
+						for _, junk := range []float64{-1e300, math.Inf(1), math.NaN()} {
+							jy := append([]float64{}, ys...)
+							for _, i := range ord[q:] {
+								jy[i] = junk
+							}
+							sum.Checks++
+							if g2 := fit.LOESS(append([]float64{}, xs...), jy, fc.Deg, span)(x0); !(math.Abs(g2-got) <= tol) {
+								sum.viol("LOESS-window", c, "LOESS(deg %d, span %v)(%v)=%.12g, but %.12g once the %d points outside its window of %d hold %v", fc.Deg, span, x0, got, g2, n-q, q, junk)
+							}
+						}
+					}
+				}
 			}
 			// one smoother evaluated along a non-monotone query sequence (descending, a step back, far jumps): each value
 			// must be what a freshly built smoother returns for that point (the specification's value at x0 among them)
